@@ -122,7 +122,10 @@ if(CMAKE_CXX_COMPILER_ID MATCHES "(GNU|Clang)")
 
   if(NOT MSVC)
     # These flags upset Clang when it's in MSVC mode
-    set(release_flags "${release_flags} -fno-stack-protector -ffast-math -fno-unsafe-math-optimizations")
+    # (No -ffast-math: linking with it makes the program start with subnormal
+    # numbers flushed to zero, and the tools must carry every floating-point
+    # literal of a header into the generated code unchanged.)
+    set(release_flags "${release_flags} -fno-stack-protector")
 
     # Allow NaN to occur in the public SDK
     set(standard_flags "${release_flags} -fno-finite-math-only")
